@@ -32,6 +32,7 @@ func (o *Once[T]) Resolve(ctx context.Context) (T, error) {
 			return empty, context.Canceled
 		}
 
+		verifPoint(1, o)
 		o.mtx.Lock()
 		prom := o.prom
 
@@ -43,18 +44,21 @@ func (o *Once[T]) Resolve(ctx context.Context) (T, error) {
 			go func() {
 				result, err := o.cb(ctx)
 				if err != nil {
+					verifPoint(2, o)
 					o.mtx.Lock()
 					if o.prom == prom {
 						o.prom = nil
 					}
 					o.mtx.Unlock()
 
+					verifPoint(3, o)
 					if ctx.Err() != nil {
 						prom.SetResult(empty, context.Canceled)
 					} else {
 						prom.SetResult(empty, err)
 					}
 				} else {
+					verifPoint(3, o)
 					prom.SetResult(result, err)
 				}
 			}()
